@@ -12,7 +12,7 @@ from mcverif import build
 # ---------------------------------------------------------------------------------------------
 # initial states (pure JSON: family name + options; the spec is regenerated from them)
 
-FAMILIES = ("hex3pins", "hexfullcu", "cartq", "cartfull")
+FAMILIES = ("hex3pins", "hexfullcu", "cartq", "cartfull", "trz")
 
 
 def spec_of(init):
@@ -22,9 +22,11 @@ def spec_of(init):
         # the plenum block gets an automatic pin grid (multi-index clad/gap + free-coordinate duct)
         s = build.hex_spec(pins=True, bond=True, sfp_contents={(0, 0): "IC"})
     elif fam == "hexfullcu":
-        s = build.hex_spec(third=False, cornersUp=True, sfp_contents={(1, 0): "OC"})
+        # two pool assemblies: an even-sized pool grid is not through-centre, i.e. has an offset
+        s = build.hex_spec(third=False, cornersUp=True, sfp_contents={(0, 0): "IC", (1, 0): "OC"})
     elif fam == "cartq":
-        s = build.cart_spec(quarter=True)
+        # "quarter reflective" (not through the centre assembly): the core grid has an offset
+        s = build.cart_spec(quarter=True, through_center=False)
         s["grids"]["sfp"]["contents"] = {(0, 0): "IC"}
     elif fam == "cartfull":
         s = build.cart_spec(quarter=False)
@@ -34,6 +36,32 @@ def spec_of(init):
     return s
 
 
+def trz_text():
+    """theta-R-Z quarter core: 2 azimuthal x 2 radial assemblies of two RadialSegment blocks.
+    build.render() knows no ``grid bounds``; they are spliced into its output."""
+    th = [0.0, math.pi / 4, math.pi / 2]
+    rr = [0.0, 3.0, 6.0]
+    blocks, assemblies, contents = {}, {}, {}
+    for i in range(2):
+        for j in range(2):
+            bn = "blk%d%d" % (i, j)
+            dims = dict(inner_radius=rr[j], outer_radius=rr[j + 1], inner_theta=th[i], outer_theta=th[i + 1], height=10.0)
+            blocks[bn] = {"components": [build.comp("fuel", "RadialSegment", "UZr", 25.0, 600.0, mult=0.75, **dims), build.comp("coolant", "RadialSegment", "Sodium", 450.0, 450.0, mult=0.25, **dims)]}
+            sp = "T%d%d" % (i, j)
+            assemblies["assem%d%d" % (i, j)] = build.assem(sp, [bn, bn], [10.0, 10.0], ["A", "B"], {"U235_wt_frac": [0.11, 0.12], "ZR_wt_frac": [0.06, 0.06]})
+            contents[(i, j)] = sp
+    spec = {
+        "blocks": blocks,
+        "assemblies": assemblies,
+        "grids": {"core": {"geom": "thetarz", "symmetry": "quarter periodic", "contents": contents}, "sfp": {"geom": "cartesian", "symmetry": "full", "pitch": [50.0, 50.0], "contents": {(0, 0): "T00"}}},
+        "systems": {"core": {"grid name": "core", "origin": [0.0, 0.0, 0.0]}, "Spent Fuel Pool": {"type": "sfp", "grid name": "sfp", "origin": [5000.0, 5000.0, 6000.0]}},
+    }
+    txt = build.render(spec)
+    marker = "        geom: thetarz\n"
+    assert txt.count(marker) == 1
+    return txt.replace(marker, marker + "        grid bounds:\n            r: %s\n            theta: %s\n" % (rr, th))
+
+
 def settings():
     return build.settings(trackAssems=True)
 
@@ -41,7 +69,17 @@ def settings():
 def build_state(init):
     """-> (reactor, cs, bp, targets)"""
     cs = settings()
-    r = build.reactor(spec_of(init), cs, seed=init.get("seed", 0))
+    if init["family"] == "trz":
+        import io
+        import random
+
+        from armi.reactor import reactors
+        from armi.reactor.blueprints import Blueprints
+
+        random.seed(init.get("seed", 0))
+        r = reactors.factory(cs, Blueprints.load(io.StringIO(trz_text())))
+    else:
+        r = build.reactor(spec_of(init), cs, seed=init.get("seed", 0))
     return r, cs, r.blueprints, targets(r)
 
 
@@ -94,7 +132,9 @@ PARAM_OPS = [
     ["p", "B0", "pointsCornerFastFluxFr", ["arr", [[1.0, 2.0, 3.0], [4.0, 5.0, 6.5]]]],
     ["ragged", "mgFluxGamma", [["B0", [1.0, 2.0, 3.0]], ["B1", [4.0, 5.0]]]],
     ["p", "B1", "power", None],
-    ["p", "B0", "THcornTemp", ["dict", {"a": 1.5, "b": 2.5}]],
+    # dict: the column format holds {str: float} dictionaries when every object of the class has
+    # one (union of keys, NaN-filled), so every block gets one and B0 gets an extra key
+    ["pdict", "B0", "pinLocation", {"a": 1.5, "b": 2.5}, {"a": 1.0}],
     # Component: float, no-default float, no-default str, array
     ["p", "K0.clad", "percentBu", 1.75],
     ["p", "K0.fuel", "buRate", 0.0625],
@@ -124,7 +164,74 @@ STATE_OPS = [
 ]
 
 
-def alphabet(init):
+# sub-alphabets for the deeper levels: one parameter assignment per object class / column format
+# plus every structural operation
+SUB2 = [
+    ["p", "C", "betaComponents"],
+    ["p", "A1", "notes"],
+    ["p", "B0", "mgFlux"],
+    ["ragged", "mgFluxGamma"],
+    ["p", "B1", "power"],
+    ["p", "K0.fuel", "pinPercentBu"],
+    ["nd", "K0.fuel", "PU239"],
+    ["temp", "K0.fuel"],
+    ["dim", "K0.clad"],
+    ["link"],
+    ["unlink"],
+    ["coord"],
+    ["swap"],
+    ["rot", "A0"],
+    ["rot", "A1"],
+    ["discharge"],
+    ["height"],
+    ["pitch"],
+    ["advance"],
+    ["full"],
+]
+SUB3 = [["p", "B0", "mgFlux"], ["ragged", "mgFluxGamma"], ["nd", "K0.fuel", "PU239"], ["temp", "K0.fuel"], ["dim", "K0.clad"], ["link"], ["coord"], ["swap"], ["rot", "A0"], ["discharge"], ["height"], ["pitch"], ["advance"], ["full"]]
+
+
+def _in(op, sub):
+    return sub is None or any(list(op[: len(p)]) == p for p in sub)
+
+
+_NAMED = {"FULL": None, "SUB2": SUB2, "SUB3": SUB3}
+
+
+def alphabet(init, level=1):
+    """Operations offered as the ``level``-th operation of a history (1-based): the alphabet
+    named in init["levels"][level-1] (FULL, SUB2, SUB3; nested)."""
+    levels = init.get("levels") or ["FULL"]
+    if level > len(levels):
+        return []
+    sub = _NAMED[levels[level - 1]]
+    return [o for o in _alphabet(init) if _in(o, sub)]
+
+
+def _rotate(o, k):
+    """VERIF_SEED rotates equivalent representative constants (never which operations exist)."""
+    if not k:
+        return o
+    o = list(o)
+    if o[0] == "p" and o[2] in ("power", "kInf", "lastKeff", "percentBu", "cycleLength") and isinstance(o[3], float):
+        o[3] = o[3] + 0.125 * k
+    elif o[0] == "temp":
+        o[2] = o[2] + 5.0 * k
+    elif o[0] == "height":
+        o[2] = o[2] + 0.25 * k
+    elif o[0] == "nd" and o[3] == "set" and o[4]:
+        o[4] = o[4] * (1 + 0.125 * k)
+    elif o[0] == "coord":
+        o[2] = o[2] + 0.0625 * k
+    return o
+
+
+def _alphabet(init):
+    k = int(init.get("seed", 0)) % 8
+    return [_rotate(o, k) for o in _alphabet0(init)]
+
+
+def _alphabet0(init):
     fam = init["family"]
     ops = [list(o) for o in PARAM_OPS + STATE_OPS]
     out = []
@@ -143,8 +250,30 @@ def alphabet(init):
                 o = ["coord", "K0.duct", 0.5, -0.25, 0.0]
         if fam.startswith("cart") and o[0] == "rot":
             continue  # CartesianBlock.rotate is not implemented
+        if fam == "trz":
+            for k in (repr(o[:3]), repr(o[:2]), o[0]):
+                if k in _TRZ:
+                    o = _TRZ[k]
+                    break
+            if o is None:
+                continue
         out.append(o)
     return out
+
+
+# theta-R-Z blocks hold two RadialSegments (fuel, coolant): retarget / drop what does not apply
+_TRZ = {
+    repr(["p", "K0.clad", "percentBu"]): ["p", "K0.coolant", "percentBu", 1.75],
+    repr(["nd", "K2.clad", "FE56"]): ["nd", "K2.coolant", "NA23", "scale", 0.5],
+    repr(["dim", "K0.clad", "od"]): ["dim", "K0.fuel", "mult", 0.7],
+    repr(["dim", "K2.duct", "ip"]): None,
+    repr(["temp", "K2.duct"]): ["temp", "K2.coolant", 425.0],
+    "link": ["link", "K0.coolant", "outer_radius", "fuel", "outer_radius"],
+    "unlink": None,
+    "coord": ["coord", "K1.coolant", 0.5, -0.25, 0.0],
+    "rot": None,
+    "pitch": None,
+}
 
 
 def enabled(init, hist, tg):
@@ -153,7 +282,14 @@ def enabled(init, hist, tg):
     done = {tuple(map(_h, o)) for o in hist}
     core = tg["C"]
     out = []
-    for o in alphabet(init):
+    level = len(hist) + 1
+    levels = init.get("levels") or ["FULL"]
+    if level > len(levels):
+        return []
+    # the histories of length n explored are those made of the alphabet named for level n
+    if not all(_in(o, _NAMED[levels[level - 1]]) for o in hist):
+        return []
+    for o in alphabet(init, level):
         if tuple(map(_h, o)) in done:
             continue
         if o[0] == "swap" and not (tg[o[1]].parent is core and tg[o[2]].parent is core):
@@ -198,6 +334,10 @@ def apply(r, cs, tg, op):
     if k == "p":
         o = tg[op[1]]
         o.p[op[2]] = _value(o, op[2], op[3])
+    elif k == "pdict":
+        o = tg[op[1]]
+        for x in r.iterChildren(deep=True, predicate=lambda c: type(c) is type(o)):
+            x.p[op[2]] = dict(op[3] if x is o else op[4])
     elif k == "ragged":
         for sel, vals in op[2]:
             tg[sel].p[op[1]] = np.array(vals)
@@ -225,7 +365,9 @@ def apply(r, cs, tg, op):
         c.parent.clearCache()
     elif k == "coord":
         c = tg[op[1]]
-        c.spatialLocator = grids.CoordinateLocation(op[2], op[3], op[4], c.parent.spatialGrid)
+        # keeps the grid association the component's locator already has (the block grid in hex
+        # blocks, none in Cartesian blocks)
+        c.spatialLocator = grids.CoordinateLocation(op[2], op[3], op[4], c.spatialLocator.grid)
     elif k == "swap":
         a, b = tg[op[1]], tg[op[2]]
         la = a.spatialLocator  # as FuelHandler.swapAssemblies does
